@@ -413,6 +413,9 @@ def arg_max(e, fn):
     if not isinstance(u, dict):
         return U64, "unknown"
     inner = unwrap_all_casts(u)
+    if isinstance(inner, dict) and inner.get("k") == "Cond":
+        a_, b_ = arg_max(inner.get("a"), fn), arg_max(inner.get("b"), fn)
+        return max(a_[0], b_[0]), "the larger of %s and %s" % (a_[1], b_[1])
     if isinstance(inner, dict) and inner.get("k") == "Un" and inner.get("op") == "~":
         x = unwrap_all_casts(inner["e"])
         t = x.get("t") if isinstance(x, dict) else None
@@ -1391,7 +1394,8 @@ def check_always_emits(run, rule):
             for x in ir.walk(st):
                 guard_at[id(x)] = g
         emit_nodes = [x for x in ir.walk(f["body"]) if (x.get("k") == "Bin" and store_through_mp(x)) or
-                      (x.get("k") in ("MCall", "Call") and (x.get("callee") or {}).get("cls") == ENC and (callee_name(x) or "").startswith("write"))]
+                      (x.get("k") in ("MCall", "Call") and (x.get("callee") or {}).get("cls") == ENC and (callee_name(x) or "").startswith("write")) or
+                      (x.get("k") == "Call" and callee_name(x) == "memcpy" and x.get("args") and is_member(ir.unwrap_all_casts(x["args"][0]), "m_p"))]
         if not emit_nodes and not emits and not nm.startswith("write") and not any(
                 x.get("k") == "Member" and path(x) and path(x)[:1] == ("this",) for x in ir.walk(f["body"])):
             continue            # a function of the class that computes a number from its arguments (a head size) is not an emitter
